@@ -73,6 +73,10 @@ def run(chk):
         run_instance(chk, "ii-pool24-len5-t3", pool[::2][:24] + ["/.a/{x}"], 5, 3, only=SEL)
     else:
         run_instance(chk, "i-pool49-len5-t2", pool, 5, 2, only=SEL)
+    # several methods: routes with one or two methods sharing a first segment (the index is keyed by method + first segment,
+    # the cache by method + path), requests for both methods, tables of up to 3 routes
+    run_instance(chk, "iii-methods", ["/a/{x}", "/a/{x:dig}", "/a/{x}/b", "/{x}/{y}", "/a/1"] + (["/a[/{x}]", "/*"] if thorough else []),
+                 4, 3, chars=("/", "a", "1", "b"), method_sets=(("GET",), ("POST",), ("GET", "POST")), req_methods=("GET", "POST"), only=SEL)
     chk.exhaustive = True
     negs(chk, None if thorough else ["D_IrregularOverwrite"])
     recorded(chk, 400 if thorough else 40)
